@@ -150,7 +150,7 @@ static void randomCase(Rng &rng, CaseResult &r, bool cascade = false) {
   std::vector<std::vector<int>> ci(K, std::vector<int>(S));
   std::vector<std::vector<float>> cf(K, std::vector<float>(S));
   int cmax = rng.chance(0.3) ? 2 : (rng.chance(0.5) ? 10 : std::min(1000000, (1 << 29) / K));
-  if (cascade) cmax = (int)rng.pick(std::vector<int>{50, 120, 1000, 1000000});
+  if (cascade) cmax = (int)rng.pick(std::vector<int>{1, 2, 3, 50, 120, 1000, 1000000});  // tiny ranges: exact cost ties everywhere
   if (huge) cmax = std::min(cmax, 1000);  // keep the 64-bit reference objective far from overflow
   bool geometric = !cascade && rng.chance(0.3);  // costs = |position difference| like the rough legalizer
   std::vector<int> ps(S), pk(K);
